@@ -277,3 +277,7 @@ fn create_end_activity(actor: &Actor) -> Option<Activity> {
         }
     })
 }
+
+#[cfg(kani)]
+#[path = "/verif/kani/vrp-core/tour_proofs.rs"]
+mod verif_kani_proofs;
